@@ -1,0 +1,14 @@
+//go:build verif
+
+package server
+
+// VerifWriteGate, when set, is called by leaderController.write after the offset of a write was
+// allocated and before the entry is appended to the WAL. A harness may block in it to control the
+// order in which concurrent writers proceed.
+var VerifWriteGate func(shard int64, offset int64)
+
+func verifWriteGate(shard int64, offset int64) {
+	if g := VerifWriteGate; g != nil {
+		g(shard, offset)
+	}
+}
